@@ -453,3 +453,37 @@ def mapped_in_order(path, seq_val, sources, method: str) -> bool:
         if recv is not src:
             return False
     return True
+
+
+# ------------------------------------------------------------------ EFF: applying a primitive does not change it
+
+APPLICATION_METHODS = ('transform', '_transform', 'matches_w_trace', 'matches', '_matches', 'matches_emr')
+
+
+def check_application_purity(c: Check, rule: str, base_paths, floor: int) -> int:
+    """a primitive is constructed once and applied many times: no application method changes state stored in the
+    object, directly or by handing a stored object to something that changes it (mutation summaries over resolved
+    calls, rules/purity.py)"""
+    from .purity import Purity
+    ix = c.ix
+    pu = Purity(ix)
+    n = 0
+    seen = set()
+    for bp in base_paths:
+        base = ix.cls(bp)
+        for k in ix.subclasses_of(base):
+            if k in seen:
+                continue
+            seen.add(k)
+            for mname in APPLICATION_METHODS:
+                m = k.methods.get(mname)
+                if m is None:
+                    continue
+                n += 1
+                changed = pu.self_mutations(m)
+                c.expect(not changed, rule, 'application-keeps-state/%s.%s' % (k.key, mname),
+                         '%s.%s changes %s of the object it is applied through: the result of one application depends on '
+                         'the applications before it (the same primitive is applied to every file / line / case)' % (
+                             k.name, mname, ', '.join('self.' + a for a in changed)), m.loc())
+    c.floor(rule, 'application methods of primitives analysed', n, floor)
+    return n
